@@ -342,6 +342,19 @@ def run(ctx):
                               'a row operation in invert() %s: %s' % ('does not cover all four columns (the accumulating inverse is not zero left of the pivot)' if not full else 'is not applied identically to both matrices', st))
                 piv = [x for x in walk(body_of(inv)) if x.get('kind') == 'IfStmt' and 'row_divisor' in N(if_parts(x)[0]) and any(t.get('kind') == 'CXXThrowExpr' for t in walk(if_parts(x)[1]))]
                 ctx.check(len(piv) == 1, R, 'Matrix4<%s>|invert|zero-pivot' % T, inv, 'a zero pivot throws', 'zero-pivot handling changed')
+                for pv_ in piv:
+                    # only a zero (or, with a tolerance, a near-zero magnitude) pivot may be refused: a one-sided
+                    # comparison refuses every pivot of one sign
+                    for n_, pol_ in atoms([Fact(if_parts(pv_)[0], True, pv_)]):
+                        r_ = relation(n_, pol_)
+                        if not r_:
+                            continue
+                        sides = [strip(r_[0]), strip(r_[2])]
+                        def _abs(e_):
+                            return e_.get('kind') == 'CallExpr' and call_name(e_) in ('fabs', 'abs', 'fabsl', 'fabsf')
+                        onesided = r_[1] in ('<', '<=', '>', '>=') and any('row_divisor' in N(s_) for s_ in sides) and not any(_abs(x_) for s_ in sides for x_ in walk(s_))
+                        ctx.check(not onesided, R, 'Matrix4<%s>|invert|pivot-test-two-sided' % T, n_, 'the pivot is refused only for zero / small magnitude',
+                                  'the pivot test `%s` is one-sided: every pivot of that sign is refused, so invertible (e.g. diagonally dominant with a negative diagonal entry) matrices throw' % src_text(n_, 60))
 
         # a const reference to an element that the function goes on to overwrite is not a captured value
         n_al = 0
@@ -363,7 +376,32 @@ def run(ctx):
         rng = next((v for v in walk(body_of(ri)) if v.get('kind') == 'VarDecl' and v.get('name') == 'range'), None)
         ctx.check(rng is not None and N(kids(rng)[-1]) in ('(1 + (high - low))', '((high - low) + 1)'), R, 'random_int|range', rng or ri, 'range = high - low + 1', 'range is %s' % (N(kids(rng)[-1]) if rng else None))
         rets = [r for r in walk(body_of(ri)) if r.get('kind') == 'ReturnStmt']
-        ctx.need(len(rets) >= 4, 'random_int: returns not found')
+        if len(rets) == 1:
+            # single-exit form: the draw is held in a local and reduced once
+            e1 = strip(kids(rets[0])[0])
+            modp = [x for x in walk(e1) if x.get('kind') == 'BinaryOperator' and x.get('opcode') == '%']
+            held = ref_decl(strip(modp[0]['inner'][0])) if modp else None
+            if held is None or held.get('kind') != 'VarDecl':
+                ctx.undecided(R, 'random_int|single-exit', rets[0], 'the single return is not low + (held draw %% range)')
+            else:
+                hv = next((v for v in walk(body_of(ri)) if v.get('kind') == 'VarDecl' and v.get('id') == held['id']), None)
+                hi_ = int_type_info(dtype(hv) or '') if hv is not None else None
+                ctx.check(hi_ is not None and not hi_[1] and hi_[0] == 64, R, 'random_int|held-draw-unsigned', hv or rets[0], 'the draw is held as an unsigned 64-bit value before the reduction',
+                          'the random draw is held in `%s %s` before `%% range`: %s' % (dtype(hv) if hv is not None else '?', held.get('name'), 'a 64-bit draw with the top bit set becomes negative, the remainder is negative and the result falls below low' if hi_ and hi_[1] else 'it is narrower than the widest range class'))
+                asg_ = [x for x in walk(body_of(ri)) if x.get('kind') == 'BinaryOperator' and x.get('opcode') == '=' and (ref_decl(x['inner'][0]) or {}).get('id') == held['id']]
+                for i, a_ in enumerate(asg_):
+                    call = next((c for c in walk(a_['inner'][1]) if c.get('kind') == 'CallExpr'), None)
+                    ui = int_type_info(dtype(call)) if call is not None else None
+                    lim = None
+                    for n_, pol in atoms(path_facts(a_)):
+                        rr = relation(n_, pol)
+                        if rr and N(rr[0]) == 'range' and rr[1] == '<=' and int_value(rr[2]) is not None:
+                            lim = min(lim, int_value(rr[2])) if lim is not None else int_value(rr[2])
+                    need_bits = 64 if lim is None else max(8, (lim).bit_length())
+                    ctx.check(ui is not None and not ui[1] and ui[0] >= need_bits, R, 'random_int|draw#%d' % i, a_, 'unsigned draw wide enough for its range class', 'the draw for ranges up to %s is %s' % (lim if lim is not None else '2^63', dtype(call) if call is not None else None))
+            rets = []
+        else:
+            ctx.need(len(rets) >= 4, 'random_int: returns not found')
         for i, r in enumerate(rets):
             e = strip(kids(r)[0])
             ok = False
